@@ -178,6 +178,8 @@ class BaseProperty(base.BaseObject):
             raise IndexError("odml.Property.__setitem__: key %i invalid for "
                              "array of length %i" % (int(key), self.__len__()))
         try:
+            if not self._validate_values([item]):
+                raise ValueError
             val = dtypes.get(item, self.dtype)
             self._values[int(key)] = val
         except Exception:
@@ -344,8 +346,11 @@ class BaseProperty(base.BaseObject):
         """
         for val in values:
             try:
-                dtypes.get(val, self.dtype)
+                converted = dtypes.get(val, self.dtype)
             except Exception:
+                return False
+            # The odML tuple conversion returns None for empty input; this is not a value.
+            if converted is None:
                 return False
         return True
 
